@@ -550,6 +550,8 @@ def render(doc, rnd, hoist=False, force_dtd=False):
             for m in doc.in_dtd:
                 decls.append(r.node(m))
             extra = ["<!ELEMENT a (#PCDATA)>", "<!ATTLIST a b CDATA #IMPLIED>", "<!NOTATION n SYSTEM 'x'>",
+                     "<!NOTATION n2 SYSTEM \"o'reilly.cgi\">", "<!NOTATION n3 PUBLIC 'a\"b' \"c'd\">",
+                     "<!ENTITY ext2 PUBLIC \"-//o'r//\" 'e\"2.xml'>", "<!ENTITY % pe2 SYSTEM \"p'e.dtd\">",
                      "<!ENTITY % pe 'ignored'>", "<!ENTITY ext SYSTEM 'e.xml'>", "<!ENTITY unp SYSTEM 'u.bin' NDATA n>",
                      "<!ENTITY unused 'never &undefined; used'>"]
             if r.entities and rnd.random() < 0.5:
